@@ -467,6 +467,18 @@ func (g *commonGen) template(w *World, name string, b int) []Step {
 			{Kind: "oauth2_start", B: b, Str: map[string]string{"provider": prov}},
 			{Kind: "oauth2_callback", B: b, A: g.r.Intn(3), Sec: &SecretRef{Kind: "state", A: -1, Idx: -1}, Str: map[string]string{"provider": prov, "code": "fresh"}},
 			{Kind: "drop_session", B: b}, g.fill(w, "probe", b)}
+	case "cookie_at_validate":
+		// a pending 2FA login of one account in the browser, then another account's cookie arrives with the validate request
+		v := g.otherAcct(w, a)
+		ob := (b + 1) % len(w.Browsers)
+		out := []Step{{Kind: "login", B: ob, A: v, Sec: pw(v), RM: true}, {Kind: "login", B: b, A: a, Sec: pw(a)},
+			{Kind: "copy_cookie", B: b, Str: map[string]string{"from": fmt.Sprint(ob)}}}
+		if c.hasSetup("sms") && (g.r.Bool() || !c.hasSetup("totp")) {
+			out = append(out, Step{Kind: "sms_validate", B: b, A: a, Sec: &SecretRef{Kind: "sms", A: -1, Idx: -1}})
+		} else {
+			out = append(out, Step{Kind: "totp_validate", B: b, A: a, Sec: &SecretRef{Kind: "totp", A: a}})
+		}
+		return out
 	case "forged_cookie":
 		// a well-formed cookie naming a real account that was never issued, while the token store misbehaves
 		st := g.fill(w, "probe", b)
